@@ -226,6 +226,8 @@ def _worker(args):
         dt = time.time() - t0
         if dt > acc.layers.get("_slowest_shard", {}).get("s", 0):
             acc.layers["_slowest_shard"] = {"s": round(dt, 2), "shard": repr(shard)[:80]}
+    except BudgetExhausted:
+        acc.count("reduced_pass_shards_cut_short")
     except WatchdogTimeout:
         acc.violation(
             "watchdog: case did not return", acc.current, "termination", "timeout"
@@ -245,12 +247,33 @@ def guard(acc, case):
     process (ITIMER_PROF), not wall time: a worker that is merely starved by other load must not be
     mistaken for a case that does not return, while a loop that never ends burns CPU and is caught.
     """
+    _reduced_budget(acc)
     acc.current = case
     signal.setitimer(signal.ITIMER_PROF, CASE_TIMEOUT_S)
 
 
+class BudgetExhausted(Exception):
+    """Reduced pass only: this shard has had its share of cases."""
+
+
+REDUCED_CASES_PER_SHARD = 2000
+
+
+REDUCED_CPU_S_PER_SHARD = 1.0
+
+
+def _reduced_budget(acc):
+    if STRIDE > 1:
+        n = acc.guard_calls = getattr(acc, "guard_calls", 0) + 1
+        if n == 1:
+            acc.guard_t0 = time.process_time()
+        if n > REDUCED_CASES_PER_SHARD or (n % 16 == 0 and time.process_time() - acc.guard_t0 > REDUCED_CPU_S_PER_SHARD):
+            raise BudgetExhausted()
+
+
 def guard_cheap(acc, case, _state=[0.0]):
     """As guard(), but re-arms the timer at most once a second (for µs-sized cases)."""
+    _reduced_budget(acc)
     acc.current = case
     now = time.monotonic()
     if now - _state[0] > 1.0:
@@ -319,7 +342,8 @@ def load_known_findings(prop):
 
 
 class Run:
-    def __init__(self, prop, tier, seed, level="model_checking"):
+    def __init__(self, prop, tier, seed, level="model_checking", reduced_pass=True):
+        self.reduced_pass = reduced_pass
         self.prop = prop
         self.tier = tier
         self.seed = seed
@@ -373,13 +397,13 @@ class Run:
     # -- finishing ----------------------------------------------------------
     def optimized_pass(self):
         """
-        Environment dimension "interpreter mode": the same exploration, reduced to every 16th shard of the quick tier,
-        once more under `python -O` (assert statements compiled away, __debug__ false).  Its violations are added
+        Environment dimension "interpreter mode": the same exploration, reduced to the first 2000 cases (at most one CPU-second) of every
+        16th shard of the quick tier, once more under `python -O` (assert statements compiled away, __debug__ false).  Its violations are added
         to this run's, marked, with the interpreter flag recorded in the replay file.
         """
         import subprocess
         import tempfile
-        if STRIDE > 1 or os.environ.get("VERIF_FAILFAST") or os.environ.get("VERIF_NO_OPT_PASS") or sys.flags.optimize:
+        if STRIDE > 1 or os.environ.get("VERIF_FAILFAST") or os.environ.get("VERIF_NO_OPT_PASS") or sys.flags.optimize or not self.reduced_pass:
             return
         t0 = time.time()
         tmp = tempfile.mkdtemp(prefix="verif-opt-")
@@ -394,7 +418,7 @@ class Run:
             for l in lines:
                 v = json.loads(l[len("REDUCED-VIOLATION "):])
                 self.acc.violation("under python -O: " + v["clause"], dict(v.get("case") or {}, interpreter="-O"), v.get("expected"), v.get("observed"), signature=("python -O", v["clause"]))
-            self.extra["reduced_pass_python_O"] = {"shards": "every 16th of the quick tier", "states": info.get("states"), "evaluations": info.get("evaluations"), "violations": len(lines), "wall_s": round(time.time() - t0, 1)}
+            self.extra["reduced_pass_python_O"] = {"shards": "first 2000 cases (at most one CPU-second) of every 16th shard of the quick tier", "states": info.get("states"), "evaluations": info.get("evaluations"), "violations": len(lines), "wall_s": round(time.time() - t0, 1)}
         finally:
             import shutil
             shutil.rmtree(tmp, ignore_errors=True)
